@@ -206,20 +206,68 @@ fn diff(r: &mut CaseResult, what: &str, a: &[(&'static str, String)], b: &[(&'st
     }
 }
 
+/// `SkinFile::parse` of bytes written from `s`. When it does not hand back the layout that was
+/// written, the typed parser of that layout is asked: if that one reads the file back correctly
+/// the fault is the layout detection, reported under its own symptom.
+fn parse_written(r: &mut CaseResult, tag: &str, bytes: &[u8], s: &SkinFile) -> Option<SkinFile> {
+    let res = skin_parse(bytes);
+    let wrong_layout = match &res {
+        Call::Ok(p) => p.is_new_format() != s.is_new_format(),
+        Call::Err(_) => true,
+        Call::Panic(..) => false,
+    };
+    if wrong_layout {
+        let typed: Call<SkinFile> = if s.is_new_format() {
+            call(|| Skin::parse(&mut Cursor::new(bytes)).map(SkinFile::New).map_err(|e| e.to_string()))
+        } else {
+            call(|| OldSkin::parse(&mut Cursor::new(bytes)).map(SkinFile::Old).map_err(|e| e.to_string()))
+        };
+        if let Call::Ok(t) = typed {
+            if content(&t) == content(s) {
+                let how = match &res {
+                    Call::Ok(_) => "takes it for the other layout".to_string(),
+                    Call::Err(e) => format!("returns Err: {e}"),
+                    _ => String::new(),
+                };
+                r.viol(
+                    format!("{tag}SkinFile::parse does not recognise the {} header layout of a file the typed parser reads back correctly", if s.is_new_format() { "new" } else { "old" }),
+                    format!("indices count {}; SkinFile::parse {how}", s.indices().len()),
+                );
+                r.outcome.push_str("layout_misdetected;");
+                return None;
+            }
+        }
+    }
+    let mut out = None;
+    (|r: &mut CaseResult| {
+        let p = step!(r, res, format!("{tag}parse(write(skin))"), false);
+        if p.is_new_format() != s.is_new_format() {
+            r.viol(format!("{tag}parse(write(skin)) yields the other header layout"), "");
+            return;
+        }
+        out = Some(p);
+    })(r);
+    out
+}
+
 fn roundtrip(r: &mut CaseResult, s: &SkinFile, tag: &str) -> Option<Vec<u8>> {
     let mut out = None;
     let mut inner = |r: &mut CaseResult| {
         let w1 = step!(r, skin_write(s), format!("{tag}write(skin)"), true);
         r.count("writes", 1);
-        walk_skin(r, &format!("{tag}write(skin)"), &w1, s);
         out = Some(w1.clone());
-        let p1 = step!(r, skin_parse(&w1), format!("{tag}parse(write(skin))"), false);
+        let n0 = r.viols.len();
+        walk_skin(r, &format!("{tag}write(skin)"), &w1, s);
+        if r.viols.len() != n0 {
+            return; // a structurally wrong file: what the parser makes of it is not judged
+        }
+        let Some(p1) = parse_written(r, tag, &w1, s) else { return };
         r.count("parses", 1);
-        if p1.is_new_format() != s.is_new_format() {
-            r.viol(format!("{tag}parse(write(skin)) yields the other header layout"), format!("wrote new={} parsed new={}", s.is_new_format(), p1.is_new_format()));
+        let n1 = r.viols.len();
+        diff(r, &format!("{tag}parse(write(skin)) differs from the object"), &content(s), &content(&p1), false);
+        if r.viols.len() != n1 {
             return;
         }
-        diff(r, &format!("{tag}parse(write(skin)) differs from the object"), &content(s), &content(&p1), false);
         let w2 = step!(r, skin_write(&p1), format!("{tag}write(parse(write(skin)))"), false);
         if w1 != w2 {
             let pos = w1.iter().zip(w2.iter()).position(|(a, b)| a != b).unwrap_or(w1.len().min(w2.len()));
@@ -246,41 +294,42 @@ impl Space for SkinSpace {
         r.nontrivial = d[..5].iter().any(|x| *x != 0);
         let s = make(d[5] as usize, &d[..5]);
         let w1 = roundtrip(&mut r, &s, "");
-        // conversions
-        for (tn, tv) in TARGETS {
-            let mut t = CaseResult::new();
-            (|t: &mut CaseResult| {
-                let c = step!(t, call(|| s.convert(tv).map_err(|e| e.to_string())), "convert(skin)", true);
-                let same_layout = match (&s, LAYOUTS[d[5] as usize].1) {
-                    (SkinFile::Old(_), _) => !tv.uses_new_skin_format(),
-                    (SkinFile::New(_), Some(v)) => v == tv,
-                    _ => false,
-                };
-                if same_layout {
-                    let wc = step!(t, skin_write(&c), "write(convert(skin, same version))", false);
-                    if let Some(w1) = &w1 {
-                        byte_diff(t, "conversion of a skin to its own version changes the written bytes", w1, &wc);
+        // conversions (judged only when the plain round trip holds)
+        if r.viols.is_empty() {
+            for (tn, tv) in TARGETS {
+                let mut t = CaseResult::new();
+                (|t: &mut CaseResult| {
+                    let c = step!(t, call(|| s.convert(tv).map_err(|e| e.to_string())), "convert(skin)", true);
+                    let same_layout = match (&s, LAYOUTS[d[5] as usize].1) {
+                        (SkinFile::Old(_), _) => !tv.uses_new_skin_format(),
+                        (SkinFile::New(_), Some(v)) => v == tv,
+                        _ => false,
+                    };
+                    if same_layout {
+                        let wc = step!(t, skin_write(&c), "write(convert(skin, same version))", false);
+                        if let Some(w1) = &w1 {
+                            byte_diff(t, "conversion of a skin to its own version changes the written bytes", w1, &wc);
+                        }
+                        return;
                     }
-                    return;
+                    if c.is_new_format() != tv.uses_new_skin_format() {
+                        t.viol("converted skin has the wrong header layout for the target version", "");
+                        return;
+                    }
+                    // the five data vectors are representable in every layout
+                    let n0 = t.viols.len();
+                    diff(t, "skin conversion loses content", &content(&s), &content(&c), true);
+                    if t.viols.len() != n0 {
+                        return;
+                    }
+                    // and the converted object must itself survive write→parse
+                    roundtrip(t, &c, "converted skin: ");
+                })(&mut t);
+                for v in t.viols {
+                    r.viol(v.symptom, format!("to {tn}: {}", v.detail));
                 }
-                if c.is_new_format() != tv.uses_new_skin_format() {
-                    t.viol("converted skin has the wrong header layout for the target version", "");
-                    return;
-                }
-                // the five data vectors are representable in every layout
-                diff(t, "skin conversion loses content", &content(&s), &content(&c), true);
-                let wc = step!(t, skin_write(&c), "write(convert(skin))", true);
-                let pc = step!(t, skin_parse(&wc), "parse(write(convert(skin)))", false);
-                if pc.is_new_format() != c.is_new_format() {
-                    t.viol("parse(write(convert(skin))) yields the other header layout", "");
-                    return;
-                }
-                diff(t, "skin conversion loses content after write→parse", &content(&s), &content(&pc), true);
-            })(&mut t);
-            for v in t.viols {
-                r.viol(v.symptom, format!("to {tn}: {}", v.detail));
+                r.count("conversions", 1);
             }
-            r.count("conversions", 1);
         }
         r.outcome = if r.viols.is_empty() { "held".into() } else { format!("{}viol", r.outcome) };
         r
